@@ -176,6 +176,26 @@ class Zone:
                     terms.add(x)
                     terms.add(y)
                     self._cmp.append((x, y, a[2]))
+        # a decided `checked_sub` (directly, or through the `?` operator's Try::branch): Some/Continue means
+        # k <= a and the payload is a - k; None/Break means a < k
+        self._csub = []
+        for a in atoms:
+            if a[0] not in ("is", "isnot") or not isinstance(a[1], tuple):
+                continue
+            e, v = a[1], a[2]
+            variant = v if a[0] == "is" else (1 - v if v in (0, 1) else None)
+            if variant is None:
+                continue
+            opt, payload_of, some = None, None, None
+            if e[:2] == ("call", "<Option<T> as Try>::branch") and len(e[2]) == 1:
+                opt, payload_of, some = norm(e[2][0]), ("as", e, "Continue"), variant == 0
+            elif e[:2] == ("pcall", "<usize>::checked_sub"):
+                opt, payload_of, some = e, ("as", e, "Some"), variant == 1
+            if isinstance(opt, tuple) and opt[:2] == ("pcall", "<usize>::checked_sub") and len(opt[2]) == 2:
+                x, k = norm(opt[2][0]), norm(opt[2][1])
+                terms.add(x)
+                terms.add(k)
+                self._csub.append((x, k, some, ("field", payload_of, "0")))
         # sub-terms that carry definitional axioms
         for t in list(terms):
             for s in mir.walk(t):
@@ -228,6 +248,17 @@ class Zone:
         for a in self.atoms:
             if a[0] == "le":
                 self._add(a[1], a[2], a[3])
+        for x, k, some, payload in self._csub:
+            if not some:
+                self._add(x, k, -1)
+                continue
+            self._add(k, x, 0)
+            if payload in self.idx:
+                if k[0] == "int":
+                    self._add(payload, x, -k[1])
+                    self._add(x, payload, k[1])
+                else:
+                    self._add(payload, x, 0)
         for x, y, o in self._cmp:
             if o in (255, -1):
                 self._add(x, y, -1)
